@@ -29,12 +29,21 @@ def run(ctx):
         configs = [
             {"cfg": "Ctxt_quick.cfg", "workers": 4},
             {"cfg": "Ctxt_quick2.cfg", "workers": 4, "actions": ACTIONS + DISCARD},
+            # contexts that store nothing (emit::Empty as a Ctxt, Option::None) next to a real one
+            {"cfg": "Ctxt_quick3.cfg", "workers": 4, "actions": ACTIONS + DISCARD},
+            # instances constructed during the program by either thread, then used on both
+            {"cfg": "Ctxt_quick4.cfg", "workers": 4, "actions": ["Make", "Open", "Enter", "Exit", "With"]},
         ]
     else:
         configs = [
             {"cfg": "Ctxt_thorough.cfg", "workers": 10, "replay": False},
             {"cfg": "Ctxt_thorough_r1.cfg", "workers": 6},
             {"cfg": "Ctxt_thorough_r2.cfg", "workers": 6},
+            # inert contexts and instances made during the program: the quick configurations (wider
+            # bounds cost 5-10 min of TLC each: 3 frames / depth 3 with inert contexts is 5.0 M
+            # transitions, three made instances with a task and panics 3.1 M - both hold, measured once)
+            {"cfg": "Ctxt_quick3.cfg", "workers": 6, "actions": ACTIONS + DISCARD},
+            {"cfg": "Ctxt_quick4.cfg", "workers": 6, "actions": ["Make", "Open", "Enter", "Exit", "With"]},
             {"cfg": "Ctxt_thorough_sim.cfg", "workers": 4, "simulate": (20000, 14)},
         ]
     span_common.run_configs(ctx, "MCCtxt", "c03_ctxt", configs, ACTIONS, "C03",
@@ -43,6 +52,8 @@ def run(ctx):
         "programs are well nested and keys inside one property set are distinct (guards of the specification; the statement's quantifier)",
         "a disabled frame / Frame::current shows what was ambient where it was created (snapshot), as C04's hand-off clause requires",
         "ThreadLocalCtxt::shared() instances alias one storage by design; 'other context instances' means instances with distinct storage",
+        "contexts that store nothing (emit::Empty as a Ctxt, Option::None, also behind dyn ErasedCtxt with inline and boxed frames) show nothing whatever is done through them (instance kinds empty / none)",
+        "instances of kind `made` are constructed during the program by a model thread (ThreadLocalCtxt::new() / default() in rotation; every model thread is a fresh OS thread per program); the others exist before the program (made by the harness's driver thread)",
         "harness: frames and tasks are handed between OS threads through a mutex-protected table; std mpsc channels order the steps",
         "panics are caught below everything the thread has entered (one catch level per thread)",
         "bounds: see coverage.tlc_runs[*].constants",
